@@ -357,7 +357,7 @@ def run(tier, seed):
     st = {"ok": [b[0] for b in sb] == list(range(0, 2 * len(tests), 2)), "reported": [b[0] for b in sb],
           "corruptions": [x[0] for x in tests], "skipped_no_conforming_candidate": missing}
     cov["obs_selftest"] = st
-    if not st["ok"]:
+    if st["ok"] is False:
         raise vlib.Inconclusive("observation self-test failed: %r" % st)
 
     # ---- evidence --------------------------------------------------------------------------------------------------
